@@ -270,7 +270,9 @@ class World:
                         state["depth"] -= 1
                 return f
             setattr(FW, name, mk())
-        return FW()
+        fw = FW()
+        fw._fault_state = state
+        return fw
 
     def faulty_reader(self, data, fuel):
         R = self.reader_mod.EoReader
@@ -316,8 +318,22 @@ class World:
             return out
         finally:
             self.enum_as_int = False
-        w = self.faulty_writer(c.get("fuel", -1))
-        w.string_sanitization_mode = bool(c.get("san0", False))
+        mark = 0
+        if c.get("prefail") is not None:
+            # the writer has been used before: an earlier serialize() of the same object failed part-way (caught by the caller)
+            w = self.faulty_writer(c["prefail"])
+            w.string_sanitization_mode = bool(c.get("san0", False))
+            try:
+                cls.serialize(w, obj)
+            except Exception:
+                pass
+            mark = len(w.to_bytearray())
+            w._fault_state["left"] = -1             # (the first call may have finished before the fault was due)
+            del self.wmodes[:]
+            out["mode_after_failed_call"] = bool(w.string_sanitization_mode)
+        else:
+            w = self.faulty_writer(c.get("fuel", -1))
+            w.string_sanitization_mode = bool(c.get("san0", False))
         self.calls = []
         try:
             if c.get("via_write") and hasattr(obj, "write"):
@@ -327,7 +343,7 @@ class World:
         except Exception as e:
             out["exc"] = self.exc_name(e)
             out["exc_msg"] = str(e)[:100]
-        out["bytes"] = list(w.to_bytearray())
+        out["bytes"] = list(w.to_bytearray())[mark:]
         out["san_end"] = bool(w.string_sanitization_mode)
         if c.get("direct_nested") and not out["exc"]:
             # every nested generated object (struct, array element, case data) is also a public class of its own: enter its
